@@ -66,6 +66,22 @@ class Obligation:
 _QCACHE = {}
 
 
+def _split_index(e):
+    """e == base + k  ->  (id(base), k) for an integer numeral k; plain terms are base + 0"""
+    if z3.is_int_value(e):
+        return (-1, e.as_long())
+    if z3.is_app(e) and e.decl().kind() == z3.Z3_OP_ADD and e.num_args() == 2:
+        a, b = e.arg(0), e.arg(1)
+        if z3.is_int_value(b):
+            return (a.get_id(), b.as_long())
+        if z3.is_int_value(a):
+            return (b.get_id(), a.as_long())
+        return None
+    if z3.is_const(e) or z3.is_app(e):
+        return (e.get_id(), 0)
+    return None
+
+
 def has_quant(f) -> bool:
     """does the formula contain a quantifier (memoised DFS over the hash-consed AST)"""
     todo, seen = [f], set()
@@ -147,7 +163,17 @@ class State:
             self.assume(z3.ForAll([r], z3.Implies(z3.And(r < a0, Val.is_VRef(e)), Val.rid(e) < a0), patterns=[e]))
 
     def read(self, fld, rid):
-        return z3.Select(self.field(fld), rid)
+        """select with syntactic select-over-store resolution for indices of the shape <base> + <numeral>"""
+        arr = self.field(fld)
+        key = _split_index(rid)
+        while key is not None and z3.is_app(arr) and arr.decl().kind() == z3.Z3_OP_STORE:
+            k2 = _split_index(arr.arg(1))
+            if k2 is None or k2[0] != key[0]:
+                break
+            if k2[1] == key[1]:
+                return arr.arg(2)
+            arr = arr.arg(0)
+        return z3.Select(arr, rid)
 
     def write(self, fld, rid, value):
         self.heap[fld] = z3.Store(self.field(fld), rid, value)
